@@ -7,7 +7,7 @@ rm -rf $v; mkdir -p $v
 rsync -a --exclude .git --exclude .work --exclude evidence --exclude replays --exclude seeded /verif/ $v/
 sed -i "s|=> /repo|=> $wt|" $v/harness/go.mod
 git -C $wt checkout -q -- . ; git -C $wt clean -fdq
-git -C $wt apply /tmp/seed/$id.out/$m.diff || { echo "patch does not apply"; exit 3; }
+git -C $wt apply ${SEEDOUT:-/tmp/seed}/$id.out/$m.diff || { echo "patch does not apply"; exit 3; }
 cd $v
 for p in "$@"; do
   s=$(date +%s)
@@ -18,5 +18,5 @@ for p in "$@"; do
   [ $rc -eq 1 ] && grep -h "sub-check" $v/try_$p.err | cut -c1-400 | head -3
 done
 git -C $wt checkout -q -- . ; git -C $wt clean -fdq
-mkdir -p /tmp/seed/$id.out/replays-$m && cp -r $v/replays/* /tmp/seed/$id.out/replays-$m/ 2>/dev/null
+mkdir -p ${SEEDOUT:-/tmp/seed}/$id.out/replays-$m && cp -r $v/replays/* ${SEEDOUT:-/tmp/seed}/$id.out/replays-$m/ 2>/dev/null
 rm -rf $v
